@@ -17,12 +17,23 @@ def sh(cmd, cwd):
 def main():
     wt, out, crate = sys.argv[1], sys.argv[2], sys.argv[3]
     name = sys.argv[4] if len(sys.argv) > 4 else "seed_demo"
+    out = os.path.abspath(out)
+    # the demonstration's head comment names the crate (and cargo features) it was written for: that wins over the argument
+    import re
+    head = "".join(open(os.path.join(out, "demo.rs"), errors="replace").readlines()[:12])
+    feat = ""
+    m = re.search(r"cargo test[^\n]*?-p\s+([A-Za-z0-9_-]+)", head)
+    if m and os.path.isdir(os.path.join(wt, m.group(1))):
+        crate = m.group(1)
+    m = re.search(r"--features[ =]([A-Za-z0-9_,-]+)", head)
+    if m:
+        feat = " --features " + m.group(1)
     demo_dst = os.path.join(wt, crate, "tests", name + ".rs")
     sh("git checkout -- . && git clean -fdq -e target", wt)
     res = {}
     os.makedirs(os.path.dirname(demo_dst), exist_ok=True)
     shutil.copy(os.path.join(out, "demo.rs"), demo_dst)
-    rc, o = sh("cargo test --offline -p %s --test %s" % (crate, name), wt)
+    rc, o = sh("cargo test --offline -p %s%s --test %s" % (crate, feat, name), wt)
     res["demo_without_patch_passes"] = (rc == 0)
     os.remove(demo_dst)
     rc, o = sh("git apply --whitespace=nowarn %s" % os.path.join(out, "patch.diff"), wt)
@@ -30,14 +41,15 @@ def main():
     rc, o = sh("cargo test --workspace --no-fail-fast --offline", wt)
     res["suite_with_patch_passes"] = (rc == 0)
     shutil.copy(os.path.join(out, "demo.rs"), demo_dst)
-    rc, o = sh("timeout 300 cargo test --offline -p %s --test %s" % (crate, name), wt)
+    rc, o = sh("timeout 300 cargo test --offline -p %s%s --test %s" % (crate, feat, name), wt)
     res["demo_with_patch_fails"] = (rc != 0)
     res["demo_failure_excerpt"] = "\n".join(l for l in o.splitlines() if "panicked" in l or "FAILED" in l or "assert" in l)[:600]
     os.remove(demo_dst)
     sh("git checkout -- . && git clean -fdq -e target", wt)
     import json
+    res["crate"] = crate + feat
     print(json.dumps(res))
-    return 0 if all(v for k, v in res.items() if k != "demo_failure_excerpt") else 1
+    return 0 if all(v for k, v in res.items() if k not in ("demo_failure_excerpt", "crate")) else 1
 
 
 if __name__ == "__main__":
